@@ -59,13 +59,18 @@ def nested_checks(chk, tier, seed):
                 chk.violation({"kind": "history", "what": "check returned an error: " + " ".join(f[3:])[:200],
                                "case": G.case_lines(r["case"]["model"], ops)})
         failed_moves += 1 if mf else 0
+        for l in r["q_impl"]:
+            f = l.split()
+            if f[3] == "unit" and f[6] == "true" and f[10] == "false":
+                chk.violation({"kind": "history", "what": "unit %s reported plannable (best_move_failed %s) but no placement of it executes on a copy of the checked solution" % (f[4], f[8]),
+                               "case": G.case_lines(r["case"]["model"], ops)})
         if r["diff"]:
             d = r["diff"]
             kind = d["impl"].split()[1] if len(d["impl"].split()) > 1 else "?"
             chk.violation({"kind": "history", "what": "check.SolutionCheck altered the solution (stop groups): %s" % str(d)[:300],
                            "finding_shape": {"kind": "nested", "oracle": "C18", "op": "q_check", "detail": kind, "moves_failed": mf > 0},
                            "case": G.case_lines(r["case"]["model"], ops)})
-    chk.ob("nested: solution unchanged by check.SolutionCheck on %d group histories (%d with failing best moves; %d tainted histories left out)"
+    chk.ob("nested: solution unchanged by check.SolutionCheck and every unit reported plannable can be planned, on %d group / user-constraint histories (%d with failing best moves; %d tainted histories left out)"
            % (used, failed_moves, tainted), not chk.violations)
     return used
 
